@@ -180,7 +180,6 @@ Example transform_context_stored_zero :
 Proof. split; vm_compute; reflexivity. Qed.
 
 Print Assumptions evaluate_eq.
-Print Assumptions contains_behavior_eq.
 Print Assumptions get_kaykobad_context_eq.
 Print Assumptions tactic_4_eq.
 Print Assumptions tactic_3_eq.
